@@ -63,6 +63,10 @@ func C03(e *Env) {
 	r.Rule("R15.3", "built-in function table and its helpers (shared with C15)", 4)
 	c02ResolverChain(e, "R02.1")
 	c03ToExpr(e)
+	statelessRule(e, "R02.6", "internal/pkg/resolver", "internal/pkg/token", "internal/pkg/syntax", compilerRel)
+	r.Rule("R02.6", "resolvers, tokenizer and factories keep no state from one value to the next (no store, map update or synchronised-container write through a receiver): a cache keyed by the printed value would give `8080` and \"8080\" the same code (shared with C02)", 2)
+	isPrimitiveRule(e, "R11.9")
+	r.Rule("R11.9", "every YAML scalar kind (all integer widths incl. uint64, floats, bool, string, null) is a primitive: types.IsPrimitive lists exactly these kinds (shared with C11)", 1)
 	r.NotCovered = append(r.NotCovered,
 		"the chunker as a string algorithm (pairing of %, UTF-8 handling) beyond the structural facts decided here",
 		"run-time results and error texts of env/envInt/todo; the string casts of exporter.CastToString",
@@ -711,6 +715,11 @@ func stepFirstMatch(e *Env, rule, rel, name, method string) {
 			}
 		}
 		ok = ok && iff != nil && edgeDominates(iff.Block(), true, cr[0])
+		// and its verdict is final: once a strategy was asked to handle the value the loop is not re-entered
+		// (a failing strategy does not hand the value on to a later, laxer one)
+		if ok && reach(cr[0].Block(), false)[sup[0].Block()] {
+			ok = false
+		}
 	}
 	e.R.Check(ok, rule, key, "the first strategy (in slice order) whose Supports accepts the value handles it, and it handles exactly the value Supports saw")
 }
